@@ -4,15 +4,23 @@ Decided statically: NULL-contradiction in the anchored files, lock regions of
 fork+insert and of the reaper, the kill gate, dead-flag pairing, status-record
 ownership.  Not decided: ordering of statuses, pid reuse races, routing
 multiplicities over schedules.
+
+Formulation (see h11.py): nothing is anchored on the name of a static function,
+local, parameter or file-scope variable.  The roots of iv_wait.c (exported API,
+installed handlers) are analysed with the helpers of the unit inlined; sites are
+found by role (the call of waitpid/wait4, fork, kill, the insertion/deletion of
+&X->avl_node, the queueing into X->events_pending, the store to X->flags, ...).
+Path-shaped clauses (kill gate, delete-iff-flag-clear, "deletes and flags iff the
+status is terminal", routing of the lookup, record ownership) are decided by a
+finite path-sensitive abstract execution (h11.Explorer) instead of matching the
+branch structure; lock clauses by forward must-analyses.
 """
-from ..core import (names_of, same_value, AnalysisBroken, canon, strip, last_member, must_pass, relpath, norm_cond, walk)
-from .. import generic
-from ..analyses import (is_call, locksets, held, holding, atoms_reading, must_pass_from_block,
-                        path_to, describe, exits_of)
+from ..core import names_of, AnalysisBroken, canon, strip, last_member, relpath, norm_cond, walk, forward, root_var
+from .. import generic, roles
+from ..analyses import is_call, path_to, describe
+from . import h11 as h
 
 ANCHOR_FILES = ('iv_wait.c', 'iv_signal.c')
-WAIT_LOCK = 'iv_wait_lock'
-TREE = '&iv_wait_interests'
 
 
 def null_rule(ctx, rid, files):
@@ -51,24 +59,29 @@ def null_rule(ctx, rid, files):
     return n
 
 
+
+
 def run(ctx):
-    prog = ctx.prog
     ctx.rule('R-C11a', 'NULL-CONTRADICTION: a pointer the function itself tests against NULL is not dereferenced '
                        'on a path where the NULL edge was taken (iv_wait.c, iv_signal.c)', floor=4)
-    ctx.rule('R-C11b', 'fork and the tree insertion of the new interest share one uninterrupted iv_wait_lock region; '
-                       'the reaper reaps, looks up, queues, deletes and flags inside one region of the same lock', floor=6)
-    ctx.rule('R-C11c', 'kill() is called only with the wait lock held, on the not-dead edge of the flag test of the '
-                       'interest whose pid is signalled', floor=2)
-    ctx.rule('R-C11d', 'the pid leaves the set exactly when a terminating status is reaped: delete and dead-flag store '
-                       'are paired under the dead-status test; unregister deletes iff the flag is clear', floor=4)
-    ctx.rule('R-C11e', 'every reaped status record is queued to an interest or freed; delivered and purged records are freed', floor=3)
-    ctx.rule('R-C11.cmp', 'writer and reader of the pid set agree: the tree comparator orders by pid and the hand-rolled lookup descends '
-                          'left iff the sought pid is smaller, right iff larger, and returns on equality', floor=6)
+    ctx.rule('R-C11b', 'fork and the insertion of the new interest into the pid set happen without the set\'s lock being released in '
+                       'between; every insertion is under that lock; the reaper reaps, looks up, queues, deletes and flags without '
+                       'releasing it between the reap call and each of these steps', floor=6)
+    ctx.rule('R-C11c', 'kill() is called only with the set\'s lock held and never while the dead flag of the signalled interest is (or may '
+                       'have become) set: the flag is re-read inside the lock region of the kill', floor=2)
+    ctx.rule('R-C11d', 'the pid leaves the set exactly when a terminating status is reaped: for each kind of wait status the reaper deletes '
+                       'and flags the found interest iff the status is terminal; unregister deletes iff the flag is clear (read under '
+                       'the lock); registration clears the flag before the pid enters the set', floor=10)
+    ctx.rule('R-C11e', 'every reaped status record is queued to an interest or freed, never both; delivered and purged records are freed', floor=4)
+    ctx.rule('R-C11.cmp', 'writer and reader of the pid set agree: one tree, its comparator orders by pid, and the reaper\'s hand-rolled lookup '
+                          'descends left iff the reaped pid is smaller, right iff larger, and routes the status to the node on equality', floor=8)
     ctx.section(cmp_rules)
     ctx.section(lambda c: null_rule(c, 'R-C11a', ANCHOR_FILES))
-    ctx.section(regions_and_dead)
+    ctx.section(regions)
     ctx.section(kill_gate)
     ctx.section(status_table)
+    ctx.section(dead_pairing)
+    ctx.section(unregister_gate)
     ctx.section(records)
     ctx.rule('R-C11f', 'nothing is delivered after unregistration: the delivery loop re-tests the per-thread handled-interest marker before '
                        'each handler call and touches the interest afterwards only behind it; unregister clears that marker when it '
@@ -76,232 +89,457 @@ def run(ctx):
     ctx.section(delivery)
 
 
+# --------------------------------------------------------------------------
+# anchors by role
+# --------------------------------------------------------------------------
+
+def reaper_contexts(prog):
+    cs = h.contexts(prog, 'is_reap')
+    if not cs:
+        raise AnalysisBroken('reaper: no waitpid/wait4 call reachable from a root of iv_wait.c')
+    return cs
+
+
+def _agg(sites, pred):
+    """(ok, first failing or first event): the obligation holds for a source construct iff it
+    holds for every copy that flag partitioning / inlining made of it"""
+    bad = [e for e in sites if not pred(e)]
+    return (not bad), (bad[0] if bad else sites[0])
+
+
+# --------------------------------------------------------------------------
+# R-C11.cmp
+# --------------------------------------------------------------------------
+
 def cmp_rules(ctx):
-    from .. import cmprules
-    cmprules.key_comparator(ctx, 'R-C11.cmp', 'iv_wait_interest_compare', 'pid')
-    cmprules.descent(ctx, 'R-C11.cmp', '__iv_wait_interest_find', 'pid', on_equal='return')
-    # the tree is the one the comparator is installed for
-    g = ctx.prog.globals.get('iv_wait.c:iv_wait_interests') or ctx.prog.globals.get('iv_wait_interests')
-    ok = g is not None and 'iv_wait_interest_compare' in canon(g.get('init', {}).get('fields', {}).get('compare', {})) if g and g.get('init', {}).get('k') == 'init' else False
-    ctx.ob('R-C11.cmp', 'iv_wait_interests:comparator', ok, loc=g['loc'] if g else None,
-           detail='the interest tree is initialised with iv_wait_interest_compare')
-
-
-def regions_and_dead(ctx):
     prog = ctx.prog
-    f = prog.fn('iv_wait_interest_register_spawn')
-    ls = locksets(f)
-    forks = [e for e in f.events() if is_call(e, 'fork')]
-    ins = [e for e in f.events() if is_call(e, 'iv_avl_tree_insert') and canon(e['args'][0]) == TREE]
-    if not forks or not ins:
-        raise AnalysisBroken('spawn helper: fork or tree insertion not found')
-    for fk in forks:
-        S = ls.get((fk['_b'], fk['_i']), frozenset())
-        reg = [x for x in S if x[0] == WAIT_LOCK]
-        ctx.ob('R-C11b', 'spawn:fork-under-lock', bool(reg), loc=fk['loc'],
-               detail='fork() is called with iv_wait_lock held', fn=f.q)
-        for i in ins:
-            S2 = ls.get((i['_b'], i['_i']), frozenset())
-            reg2 = [x for x in S2 if x[0] == WAIT_LOCK]
-            ctx.ob('R-C11b', 'spawn:insert-same-region', bool(reg) and reg == reg2, loc=i['loc'],
-                   detail='the interest is inserted in the lock region in which fork() ran (acquired at %s)'
-                          % (relpath(reg[0][1]) if reg else '-'), fn=f.q)
-    # plain registration inserts under the lock
-    f = prog.fn('iv_wait_interest_register')
-    ls = locksets(f)
-    for i in [e for e in f.events() if is_call(e, 'iv_avl_tree_insert') and canon(e['args'][0]) == TREE]:
-        ctx.ob('R-C11b', 'register:insert-under-lock', WAIT_LOCK in held(ls.get((i['_b'], i['_i']))), loc=i['loc'],
-               detail='tree insertion with iv_wait_lock held', fn=f.q)
-    # reaper
-    f = prog.fn('iv_wait_got_sigchld')
-    ls = locksets(f)
-    reaps = [e for e in f.events() if is_call(e, ('wait4', 'waitpid'))]
-    if not reaps:
-        raise AnalysisBroken('reaper: wait4/waitpid call not found')
-    crit = []
-    for e in f.events():
-        if is_call(e, ('wait4', 'waitpid')):
-            crit.append(('reap', e))
-        elif is_call(e, '__iv_wait_interest_find'):
-            crit.append(('lookup', e))
-        elif is_call(e, ('iv_list_add_tail', 'iv_list_add')) and last_member(strip(e['args'][1]).get('e')) == ('iv_wait_interest', 'events_pending'):
-            crit.append(('queue', e))
-        elif is_call(e, 'iv_avl_tree_delete') and canon(e['args'][0]) == TREE:
-            crit.append(('delete', e))
-        elif e['ev'] == 'store' and last_member(e['lhs']) == ('iv_wait_interest', 'flags'):
-            crit.append(('flag', e))
-    kinds = {k for k, _ in crit}
-    for need in ('reap', 'lookup', 'queue', 'delete'):
-        if need not in kinds:
-            raise AnalysisBroken('reaper: %s step not found' % need)
-    regions = set()
-    for k, e in crit:
-        S = ls.get((e['_b'], e['_i']), frozenset())
-        reg = [x for x in S if x[0] == WAIT_LOCK]
-        regions |= set(reg)
-        ctx.ob('R-C11b', 'reaper:%s-under-lock' % k, bool(reg), loc=e['loc'],
-               detail='%s with iv_wait_lock held' % describe(e), fn=f.q)
-    ctx.ob('R-C11b', 'reaper:one-region', len(regions) == 1, loc=f.loc,
-           detail='all reaper steps lie in a single acquisition of the lock (%d regions)' % len(regions), fn=f.q)
+    rid = 'R-C11.cmp'
+    ins = h.contexts(prog, 'is_insert')
+    if not ins:
+        raise AnalysisBroken('no insertion of an interest node into a tree found in iv_wait.c')
+    trees = {}
+    for v, sites in ins + h.contexts(prog, 'is_delete'):
+        for e in sites:
+            trees.setdefault(v.tree_of(e), e)
+    tname = sorted(trees)[0]
+    ctx.ob(rid, 'tree:one-set', len(trees) == 1 and tname.startswith('&'), loc=trees[tname]['loc'],
+           detail='every insertion and deletion of an interest node operates on the same tree object (%s)' % ', '.join(sorted(trees)))
+    gname = tname.lstrip('&')
+    g = prog.global_for(h.UNIT, gname.split('.')[0].split('[')[0])
+    comp = None
+    if g is not None and isinstance(g.get('init'), dict):
+        # the (possibly nested) static initialiser of the tree object
+        inits = [x for x in walk(g['init']) if x.get('k') == 'init' and 'compare' in (x.get('fields') or {})]
+        cs = set()
+        for x in inits:
+            c = strip(x['fields']['compare'])
+            if isinstance(c, dict) and c.get('k') == 'addr':
+                c = strip(c['e'])
+            if isinstance(c, dict) and c.get('k') == 'var' and c.get('vk') == 'func':
+                cs.add(c['name'])
+        if len(cs) == 1:
+            comp = prog.resolve(h.UNIT, cs.pop())
+    if comp is None:
+        cands = [f for f in roles.installed_in(prog, 'iv_avl_tree', 'compare') if f.file.endswith('/' + h.UNIT)]
+        comp = cands[0] if len(cands) == 1 else None
+    ctx.ob(rid, 'tree:comparator', comp is not None, loc=g['loc'] if g else trees[tname]['loc'],
+           detail='the interest tree is initialised with a comparator function (%s)' % (comp.name if comp else 'none found'))
+    if comp is None:
+        raise AnalysisBroken('comparator of the interest tree not found')
+    comparator_table(ctx, rid, comp)
+    descent(ctx, rid, gname)
 
-    dead_pairing(ctx, prog, reaps, crit)
 
+def _param_index(v, x, depth=8):
+    """index of the root's parameter an expression is derived from through copies and container_of"""
+    x = strip(x)
+    if not isinstance(x, dict) or depth <= 0:
+        return None
+    if x.get('k') == 'container_of':
+        return _param_index(v, x['e'], depth - 1)
+    if x.get('k') == 'var':
+        for i, p in enumerate(v.root.params):
+            if p['name'] == x['name'] and x['name'] not in v.defs:
+                return i
+        idx = {_param_index(v, d.get('rhs'), depth - 1) for d in v.defs.get(x['name'], []) if d.get('op') == '=' and 'rhs' in d}
+        return idx.pop() if len(idx) == 1 else None
+    return None
+
+
+def comparator_table(ctx, rid, comp):
+    """The comparator evaluated under the three orderings of (pid of first node, pid of second node)."""
+    from .. import interp
+    v = h.view(ctx.prog, comp)
+    g = v.g
+    pairs, diffs = [], []
+    for blk in g.blocks.values():
+        srcs = [blk.term['cond']] if blk.term and blk.term.get('cond') is not None else []
+        for e in blk.events:
+            srcs += [e[k] for k in ('rhs', 'value', 'init') if k in e]
+        for s_ in srcs:
+            for n in walk(s_):
+                if n.get('k') == 'bin' and n.get('op') in h.CMPOPS + ('-',) and last_member(n['l']) == h.PID and last_member(n['r']) == h.PID:
+                    li = _param_index(v, strip(n['l'])['base'])
+                    ri = _param_index(v, strip(n['r'])['base'])
+                    if {li, ri} != {0, 1}:
+                        raise AnalysisBroken('%s: a pid comparison does not compare the two argument nodes' % comp.name)
+                    if n['op'] == '-':
+                        diffs.append((canon(n), li))       # pid(x) - pid(y): its sign is the order of the two pids
+                    else:
+                        pairs.append((canon(n['l']), canon(n['r']), li))
+    if not pairs and not diffs:
+        raise AnalysisBroken('%s is no longer a comparator on the pid of its two nodes' % comp.name)
+    for o in '<=>':
+        orders = {(l, r): (o if li == 0 else h.FLIP[o]) for (l, r, li) in pairs}
+        sg = {'<': -1, '=': 0, '>': 1}
+        ints = {c: (sg[o] if li == 0 else -sg[o]) for (c, li) in diffs}
+        ex = h.Explorer(g, asg=interp.Assignment(orders=orders, ints=ints))
+        finals = ex.run((g.entry, 0), [({}, frozenset())])
+        rets = [(ex.value(e.get('value'), env) if e is not None else None) for (kind, env, facts, e) in finals if kind in ('ret', 'exit')]
+        want = {'<': -1, '=': 0, '>': 1}[o]
+        ok = bool(rets) and all(isinstance(r, int) and ((r > 0) - (r < 0)) == want for r in rets)
+        ctx.ob(rid, 'comparator:pid(a)%spid(b)' % o, ok, loc=comp.loc,
+               detail='returns %s, expected sign %d on every path' % (sorted(set(map(str, rets))), want), fn=comp.q)
+
+
+def descent(ctx, rid, tree_name):
+    """The reaper's lookup, evaluated in the reaper itself (helpers inlined): all pid comparisons
+    decided as sought < / = / > node."""
+    prog = ctx.prog
+    lock = h.wait_lock(prog)
+    stopped = [c for c in h.STATUS_CASES if c[2] == 0][0][1]
+    n = 0
+    for v, reaps in reaper_contexts(prog):
+        g = v.g
+        keys = h.key_nodes(g)
+        reads = [e for e in g.events() if v.is_lookup_read(e)]
+        if not keys or not reads:
+            raise AnalysisBroken('reaper: lookup step not found')
+        n += 1
+        # the sought key is the pid the reap call returned
+        rg = set()
+        for e in g.events():
+            if e['ev'] == 'store' and 'rhs' in e and h.lval(e['lhs']).get('k') == 'var':
+                r = strip(e['rhs'])
+                if isinstance(r, dict) and r.get('k') == 'call' and r.get('callee') in h.REAP:
+                    rg.add(v.group(h.lval(e['lhs'])['name']))
+        bad = [s for (nd, s, side) in keys if not (root_var(s) is not None and strip(s).get('k') == 'var' and v.group(strip(s)['name']) in rg)]
+        ctx.ob(rid, 'lookup:sought-is-reaped-pid', not bad, loc=(bad[0] if bad else keys[0][1]).get('loc') or reaps[0]['loc'],
+               detail='the key the tree is searched for is the value waitpid/wait4 returned', fn=v.root.q)
+        # the tree read is the tree written
+        roots_read = [e for e in reads if last_member(e['e']) == ('iv_avl_tree', 'root')]
+        def same_tree(e):
+            m = strip(e['e'])
+            b = m['base']
+            return canon(v.origin(b)) == '&' + tree_name if m.get('arrow') else canon(b) == tree_name
+        ok, e0 = _agg(roots_read, same_tree) if roots_read else (False, reads[0])
+        ctx.ob(rid, 'lookup:reads-the-insert-tree', ok, loc=e0['loc'],
+               detail='the lookup starts at the root of the tree the interests are inserted into (%s)' % tree_name, fn=v.root.q)
+        for o in '<=>':
+            paths = []
+            for r in reaps:
+                paths += h.reaper_scenario(v, r, stopped, lock=lock, order=o)
+            tags = lambda fa: {f for f in fa if isinstance(f, str)}
+            queued = lambda fa: any(isinstance(f, tuple) and f[0] == 'Q' for f in fa)
+            if o == '=':
+                ok = any(queued(fa) for _, fa in paths) and not any(tags(fa) & {'left', 'right'} for _, fa in paths) \
+                    and all(queued(fa) for _, fa in paths if 'K' in fa)
+                exp = 'no further descent; the status is queued to the node on every path that compared'
+            else:
+                want, other = ('left', 'right') if o == '<' else ('right', 'left')
+                ok = any(want in fa for _, fa in paths) and not any(other in fa for _, fa in paths) and not any(queued(fa) for _, fa in paths)
+                exp = 'descends %s only, nothing is queued' % want
+            seen = sorted({t for _, fa in paths for t in tags(fa) & {'left', 'right', 'K'}} | ({'queued'} if any(queued(fa) for _, fa in paths) else set()))
+            ctx.ob(rid, 'lookup:sought%snode' % o, ok, loc=keys[0][0].get('loc') or reads[0]['loc'],
+                   detail='over all paths: %s; expected: %s' % (seen, exp), fn=v.root.q)
+    if not n:
+        raise AnalysisBroken('reaper: lookup step not found')
+
+
+# --------------------------------------------------------------------------
+# R-C11b
+# --------------------------------------------------------------------------
+
+def regions(ctx):
+    prog = ctx.prog
+    rid = 'R-C11b'
+    lock = h.wait_lock(prog)
+    ln = lock or 'any lock'
+    forks = h.contexts(prog, 'is_fork')
+    if not forks:
+        raise AnalysisBroken('spawn helper: no fork() call reachable from a root of iv_wait.c')
+    for v, fks in forks:
+        g = v.g
+        nm = h.role_name(prog, v)
+        ok, e0 = _agg(fks, lambda e: lock in v.held_at(e))
+        ctx.ob(rid, '%s:fork-under-lock' % nm, ok, loc=e0['loc'], detail='fork() is called with %s held' % ln, fn=v.root.q)
+        inserts = [e for e in g.events() if v.is_insert(e)]
+        reach, good = set(), True
+        for fk in fks:
+            st = h.held_since(g, fk, lock)
+            for i in inserts:
+                if (i['_b'], i['_i']) in st:
+                    reach.add(id(i))
+                    if not (st[(i['_b'], i['_i'])] and lock in v.held_at(fk)):
+                        good = False
+        first = ([i for i in inserts if id(i) in reach] or fks)[0]
+        ctx.ob(rid, '%s:insert-same-region' % nm, bool(reach) and good, loc=first['loc'],
+               detail=('the interest is inserted into the pid set after fork() without %s being released in between' % ln) if reach else
+                      'no insertion of the interest follows fork()', fn=v.root.q)
+    # every insertion is under the lock
+    for v, inserts in h.contexts(prog, 'is_insert'):
+        ok, e0 = _agg(inserts, lambda e: lock in v.held_at(e))
+        ctx.ob(rid, '%s:insert-under-lock' % h.role_name(prog, v), ok, loc=e0['loc'], detail='tree insertion with %s held' % ln, fn=v.root.q)
+    # reaper: reap .. lookup .. queue .. delete .. flag atomically
+    for v, reaps in reaper_contexts(prog):
+        g = v.g
+        steps = {'lookup': [e for e in g.events() if v.is_lookup_read(e)],
+                 'queue': [e for e in g.events() if v.is_queue(e)],
+                 'delete': [e for e in g.events() if v.is_delete(e)],
+                 'flag': [e for e in g.events() if v.is_flag_store(e)]}
+        for need in ('lookup', 'queue', 'delete'):
+            if not steps[need]:
+                raise AnalysisBroken('reaper: %s step not found' % need)
+        ok, e0 = _agg(reaps, lambda e: lock in v.held_at(e))
+        ctx.ob(rid, 'reaper:reap-under-lock', ok, loc=e0['loc'], detail='%s with %s held' % (describe(e0), ln), fn=v.root.q)
+        since = [h.held_since(g, r, lock, again=v.is_reap) for r in reaps]
+        for kind in ('lookup', 'queue', 'delete', 'flag'):
+            if not steps[kind]:
+                continue
+            def atomic(e):
+                p = (e['_b'], e['_i'])
+                hit = [st[p] for st in since if p in st]
+                return lock in v.held_at(e) and bool(hit) and all(hit)
+            ok, e0 = _agg(steps[kind], atomic)
+            ctx.ob(rid, 'reaper:%s-in-reap-region' % kind, ok, loc=e0['loc'],
+                   detail='%s: %s held, and not released since the reap call that produced the status' % (describe(e0), ln), fn=v.root.q)
+
+
+# --------------------------------------------------------------------------
+# R-C11c
+# --------------------------------------------------------------------------
 
 def kill_gate(ctx):
     prog = ctx.prog
+    rid = 'R-C11c'
+    lock = h.wait_lock(prog)
+    dead = h.dead_values(prog)
     n = 0
-    for f in prog.all_funcs():
-        kills = [e for e in f.events() if is_call(e, 'kill')]
-        if not kills:
-            continue
-        ls = locksets(f)
-        hd = holding(f)
+    others = [f for f in prog.all_funcs() if not f.file.endswith('/' + h.UNIT) and any(is_call(e, 'kill') for e in f.events())]
+    for f in others:
+        # a kill() outside iv_wait.c cannot be tied to an interest at all
+        e = [e for e in f.events() if is_call(e, 'kill')][0]
+        n += 1
+        ctx.ob(rid, '%s:kill-gated' % f.name, False, loc=e['loc'], detail='kill() outside the unit that owns the dead flag and its lock', fn=f.q)
+    for v, kills in h.contexts(prog, 'is_kill'):
+        n += 1
+        nm = h.role_name(prog, v)
+        ok, e0 = _agg(kills, lambda e: lock in v.held_at(e))
+        ctx.ob(rid, '%s:kill-under-lock' % nm, ok, loc=e0['loc'], detail='kill() with %s held' % (lock or 'any lock'), fn=v.root.q)
+        # the signalled pid is the pid of the interest whose flag is read
+        objs = set()
         for e in kills:
-            n += 1
-            S = ls.get((e['_b'], e['_i']), frozenset())
-            ctx.ob('R-C11c', '%s:kill-under-lock' % f.name, WAIT_LOCK in held(S), loc=e['loc'],
-                   detail='kill() with iv_wait_lock held', fn=f.q)
-            pidarg = strip(e['args'][0])
-            obj = None
-            if isinstance(pidarg, dict) and pidarg.get('k') == 'member' and last_member(pidarg) == ('iv_wait_interest', 'pid'):
-                obj = canon(pidarg['base'])
-            A = hd.get((e['_b'], e['_i']), frozenset())
-            ok = False
-            for a in atoms_reading(A, ('iv_wait_interest', 'flags')):
-                # (obj->flags & DEAD) == 0
-                if a[0] == '==' and a[2] == '0' and obj is not None and a[1].startswith('(%s->flags & ' % obj):
-                    ok = True
-            ctx.ob('R-C11c', '%s:kill-gated' % f.name, ok and obj is not None, loc=e['loc'],
-                   detail='kill(%s) is on the not-dead edge of the flag test of the same interest' % canon(e['args'][0]),
-                   path=None if ok else path_to(f, e), fn=f.q)
+            a = strip(v.value_origin(e['args'][0]))
+            objs.add(v.group_of(a['base']) if isinstance(a, dict) and a.get('k') == 'member' and last_member(a) == h.PID else None)
+        tested = {v.group_of(strip(e['e'])['base']) for e in v.g.events() if e['ev'] == 'load' and last_member(e['e']) == h.FLAGS}
+        same = None not in objs and len(objs) == 1 and tested == objs
+        paths = h.flag_scenario(v, lock, dead, v.is_kill)
+        viol = sorted({relpath(f[1]) for (_, _, fa) in paths for f in fa if isinstance(f, tuple) and f[0] == 'site-dead'})
+        live = any(isinstance(f, tuple) and f[0] == 'site-live' for (_, _, fa) in paths for f in fa)
+        ctx.ob(rid, '%s:kill-gated' % nm, same and not viol and live, loc=kills[0]['loc'],
+               detail=('kill(%s): ' % canon(kills[0]['args'][0])) +
+                      ('the dead flag is never read' if not tested else
+                       'the pid is not the pid of the one interest whose dead flag is read' if not same else
+                       'reached while the dead flag of the interest is or may have become set (flag not tested, or tested outside the lock region of the kill)'
+                       if viol else 'never reached with the dead flag set; reached when it is clear' if live else 'never reached'),
+               path=path_to(v.g, kills[0]) if (viol or not same) else None, fn=v.root.q)
     if n == 0:
         raise AnalysisBroken('no kill() call found')
 
 
+# --------------------------------------------------------------------------
+# R-C11d
+# --------------------------------------------------------------------------
 
-def dead_pairing(ctx, prog, reaps, crit):
-    f = prog.fn('iv_wait_got_sigchld')
-    hd = holding(f)
-    status_vars = set()
-    for e in reaps:
-        for a in e['args']:
-            a = strip(a)
-            if isinstance(a, dict) and a.get('k') == 'addr' and strip(a['e']).get('k') == 'var':
-                status_vars.add(strip(a['e'])['name'])
-    dels = [e for k, e in crit if k == 'delete']
-    flags = [e for k, e in crit if k == 'flag']
-    for e in dels + flags:
-        A = hd.get((e['_b'], e['_i']), frozenset())
-        ok = any(a[0] == '!=' and a[2] == '0' and any(('var', v) in a[3] for v in status_vars) for a in A)
-        ctx.ob('R-C11d', 'reaper:%s-on-dead-status' % ('delete' if e in dels else 'flag'), ok, loc=e['loc'],
-               detail='%s is control-dependent on the terminating-status predicate' % describe(e), fn=f.q)
-    # delete is followed by the dead-flag store before the lock is dropped
-    for d in dels:
-        mp = must_pass(f, lambda e: e['ev'] == 'store' and last_member(e['lhs']) == ('iv_wait_interest', 'flags'), start_event=d)
-        bad = [e for e in f.events() if is_call(e, '___mutex_unlock') and mp.get((e['_b'], e['_i'])) is False]
-        ctx.ob('R-C11d', 'reaper:delete-then-flag', not bad, loc=d['loc'],
-               detail='after the pid leaves the tree the dead flag is stored before iv_wait_lock is released', fn=f.q)
-    # unregister: delete iff flag clear
-    f = prog.fn('iv_wait_interest_unregister')
-    hd = holding(f)
-    ls = locksets(f)
-    udel = [e for e in f.events() if is_call(e, 'iv_avl_tree_delete') and canon(e['args'][0]) == TREE]
-    if not udel:
-        raise AnalysisBroken('iv_wait_interest_unregister: tree deletion not found')
-    for e in udel:
-        A = hd.get((e['_b'], e['_i']), frozenset())
-        ok = any(a[0] == '==' and a[2] == '0' for a in atoms_reading(A, ('iv_wait_interest', 'flags')))
-        ctx.ob('R-C11d', 'unregister:delete-iff-not-dead', ok and WAIT_LOCK in held(ls.get((e['_b'], e['_i']))), loc=e['loc'],
-               detail='tree deletion only on the flag-clear edge, under the lock (no double delete)', fn=f.q)
-    # ... and on the flag-clear edge the deletion is reached on every path (no missing delete)
-    found = False
-    for b, blk in f.blocks.items():
-        if blk.term and blk.term.get('cond') is not None and len(blk.succ) == 2:
-            for si in (0, 1):
-                for (op, lc, rc, l, r) in norm_cond(blk.term['cond'], si == 0):
-                    if op == '==' and rc == '0' and ('iv_wait_interest', 'flags') in set(
-                            (x.get('record'), x.get('field')) for x in walk(l) if x.get('k') == 'member'):
-                        found = True
-                        mp = must_pass_from_block(f, blk.succ[si], lambda e: e in udel)
-                        pts = exits_of(f)
-                        ok = all(mp.get((pb, pi), True) for (pb, pi, _) in pts) and mp.get((f.exit, 0), True)
-                        ctx.ob('R-C11d', 'unregister:not-dead-edge-deletes', ok, loc=blk.term.get('loc'),
-                               detail='every path from the flag-clear edge to return deletes the node', fn=f.q)
-    if not found:
-        raise AnalysisBroken('iv_wait_interest_unregister: dead-flag test not found')
+def _reaper_paths(prog, status):
+    lock = h.wait_lock(prog)
+    out = []
+    for v, reaps in reaper_contexts(prog):
+        if not any(v.is_queue(e) for e in v.g.events()):
+            raise AnalysisBroken('reaper: queue step not found')
+        byloc = {}
+        for r in reaps:             # copies of one source call (inlined twice, partitioned) are one site
+            byloc.setdefault(r['loc'], (r, []))[1].extend(h.reaper_scenario(v, r, status, lock=lock))
+        for loc in sorted(byloc):
+            out.append((v, byloc[loc][0], byloc[loc][1]))
+    return out
 
 
-
-def records(ctx):
-    prog = ctx.prog
-    f = prog.fn('iv_wait_got_sigchld')
-    allocs = [e for e in f.events() if e['ev'] == 'store' and 'rhs' in e and any(c.get('callee') == 'malloc' for c in walk(e['rhs']) if c.get('k') == 'call')]
-    if not allocs:
-        raise AnalysisBroken('reaper: status record allocation not found')
-    for a in allocs:
-        v = canon(a['lhs'])
-        def consumed(e, v=v):
-            if is_call(e, 'free') and canon(e['args'][0]) == v:
-                return True
-            if is_call(e, ('iv_list_add_tail', 'iv_list_add')) and canon(e['args'][0]).startswith('&%s->' % v):
-                return True
-            return False
-        mp = must_pass(f, consumed, start_event=a)
-        # at loop back to the allocation and at unlock/return the record must be consumed
-        bad = []
-        for e in f.events():
-            if (e is a or is_call(e, '___mutex_unlock')) and mp.get((e['_b'], e['_i'])) is False:
-                bad.append(e)
-        ctx.ob('R-C11e', 'reaper:record-queued-or-freed', not bad, loc=a['loc'],
-               detail='%s is linked into an interest queue or freed on every path' % v, fn=f.q)
-    for fq, what in (('iv_wait_completion', 'delivered'), ('__iv_wait_interest_unregister', 'purged')):
-        f = prog.fn(fq)
-        dl = [e for e in f.events() if is_call(e, ('iv_list_del', 'iv_list_del_init')) and last_member(strip(e['args'][0]).get('e')) == ('wait_event', 'list')]
-        if not dl:
-            raise AnalysisBroken('%s: status record unlink not found' % fq)
-        for d in dl:
-            v = canon(strip(strip(d['args'][0])['e'])['base'])
-            mp = must_pass(f, lambda e, v=v: is_call(e, 'free') and canon(e['args'][0]) == v, start_event=d)
-            bad = [e for e in f.events() if (e is d) and mp.get((e['_b'], e['_i'])) is False]
-            pts = [(pb, pi) for (pb, pi, _) in exits_of(f)] + [(f.exit, 0)]
-            bad += [p for p in pts if mp.get(p) is False]
-            ctx.ob('R-C11e', '%s:%s-record-freed' % (fq, what), not bad, loc=d['loc'],
-                   detail='each %s status record is freed before the next one is taken / the function returns' % what, fn=f.q)
-
-
-def delivery(ctx):
-    import types
-    from . import c01
-    sub = []
-    proxy = types.SimpleNamespace(prog=ctx.prog, ob=lambda rid, inst, ok, **kw: sub.append((rid, inst, ok, kw)),
-                                  exempt=lambda *a, **k: None)
-    c01.holders(proxy)
-    c01.stale(proxy)
-    n = 0
-    for rid, inst, ok, kw in sub:
-        if inst.startswith('holder:marker iv_wait_interest') or inst.startswith('iv_wait_completion:'):
-            n += 1
-            ctx.ob('R-C11f', inst, ok, **kw)
-    if n < 2:
-        raise AnalysisBroken('wait delivery marker rules not found')
+def _grp(fa, tag):
+    return {f[1] for f in fa if isinstance(f, tuple) and f[0] == tag}
 
 
 def status_table(ctx, rid='R-C11d'):
     """The terminating-status predicate evaluated on the four kinds of wait
     status (Linux encodings): exited and killed-by-signal are terminal, stopped
-    and continued are not."""
-    from .. import interp
+    and continued are not.  The predicate is whatever the reaper's dead-marking
+    (tree deletion / dead-flag store of the interest the status was queued to)
+    depends on: the reaper is executed abstractly from its waitpid/wait4 call
+    with each status value."""
     prog = ctx.prog
-    f = prog.fn('iv_wait_status_dead')
-    p = f.params[0]['name']
-    cases = [('exited(0)', 0x0000, 1), ('exited(3)', 0x0300, 1), ('killed(SIGTERM)', 15, 1), ('killed(SIGKILL)+core', 9 | 0x80, 1),
-             ('stopped(SIGSTOP)', (19 << 8) | 0x7f, 0), ('continued', 0xffff, 0)]
-    for name, val, want in cases:
+    reaper_contexts(prog)                 # the anchor itself: ANALYSIS-BROKEN when there is no reap call at all
+    for name, val, want in h.STATUS_CASES:
         try:
-            r = interp.run(f, interp.Assignment(), env={p: val})['ret']
+            res = _reaper_paths(prog, val)
         except AnalysisBroken as ex:
-            ctx.ob(rid, 'status_dead:%s' % name, False, loc=f.loc, detail=str(ex), fn=f.q)
+            ctx.ob(rid, 'status_dead:%s' % name, False, detail=str(ex))
             continue
-        ctx.ob(rid, 'status_dead:%s' % name, isinstance(r, int) and bool(r) == bool(want), loc=f.loc,
-               detail='classified %s, expected %s (a terminating status that is not recognised leaves the pid in the set and the dead flag '
-                      'clear: the kill helper would signal a reaped pid)' % (r, want), fn=f.q)
+        for v, r, paths in res:
+            routed = [fa for (_, fa) in paths if _grp(fa, 'Q')]
+            marked = [bool(_grp(fa, 'D') | _grp(fa, 'F')) for fa in routed]
+            got = '1' if marked and all(marked) else '0' if marked and not any(marked) else 'mixed' if marked else 'never routed'
+            ctx.ob(rid, 'status_dead:%s' % name, bool(marked) and all(m == bool(want) for m in marked), loc=r['loc'],
+                   detail='classified %s, expected %s (a terminating status that is not recognised leaves the pid in the set and the dead flag '
+                          'clear: the kill helper would signal a reaped pid)' % (got, want), fn=v.root.q)
+
+
+def dead_pairing(ctx):
+    prog = ctx.prog
+    rid = 'R-C11d'
+    allp = {}
+    for name, val, want in h.STATUS_CASES:
+        for v, r, paths in _reaper_paths(prog, val):
+            allp.setdefault((v.root.q, r['loc']), (v, r, []))[2].extend(paths)
+    for (q, loc), (v, r, paths) in sorted(allp.items()):
+        unpaired = [fa for (_, fa) in paths if _grp(fa, 'D') != _grp(fa, 'F')]
+        ctx.ob(rid, 'reaper:delete-and-flag-paired', not unpaired, loc=loc,
+               detail='on every path of a reaper pass the pid is deleted from the set iff the dead flag of the same interest is stored '
+                      '(before the next reap / the return)', fn=q)
+        stray = [fa for (_, fa) in paths if not (_grp(fa, 'D') | _grp(fa, 'F')) <= _grp(fa, 'Q')]
+        ctx.ob(rid, 'reaper:marks-the-routed-interest', not stray, loc=loc,
+               detail='only the interest the status was queued to is deleted / flagged (a stranger child marks nothing)', fn=q)
+        cleared = [fa for (_, fa) in paths if _grp(fa, 'F0')]
+        ctx.ob(rid, 'reaper:never-clears-flag', not cleared, loc=loc, detail='the reaper never resets a dead flag', fn=q)
+    # registration clears the flag before the pid enters the set
+    for v, inserts in h.contexts(prog, 'is_insert'):
+        def tr(e, s):
+            if v.is_flag_store(e):
+                return e.get('op') == '=' and 'rhs' in e and canon(e['rhs']) in ('0', 'NULL')
+            return s
+        _, ev_in = forward(v.g, False, tr, lambda a, b: a and b)
+        ok, e0 = _agg(inserts, lambda e: bool(ev_in.get((e['_b'], e['_i']))))
+        ctx.ob(rid, '%s:flag-cleared-before-insert' % h.role_name(prog, v), ok, loc=e0['loc'],
+               detail='on every path to the insertion the dead flag was reset (an interest object re-used after its child died would '
+                      'otherwise refuse kill and never leave the set)', fn=v.root.q)
+
+
+def unregister_gate(ctx):
+    prog = ctx.prog
+    rid = 'R-C11d'
+    lock = h.wait_lock(prog)
+    dead = h.dead_values(prog)
+    cs = [(v, s) for (v, s) in h.contexts(prog, 'is_delete') if not any(v.is_reap(e) for e in v.g.events())]
+    if not cs:
+        raise AnalysisBroken('unregistration: no tree deletion outside the reaper found')
+    for v, dels in cs:
+        nm = h.role_name(prog, v)
+        ok, e0 = _agg(dels, lambda e: lock in v.held_at(e))
+        ctx.ob(rid, '%s:delete-under-lock' % nm, ok, loc=e0['loc'], detail='tree deletion with %s held' % (lock or 'any lock'), fn=v.root.q)
+        paths = h.flag_scenario(v, lock, dead, v.is_delete)
+        viol = sorted({relpath(f[1]) for (_, _, fa) in paths for f in fa if isinstance(f, tuple) and f[0] == 'site-dead'})
+        ctx.ob(rid, '%s:delete-iff-not-dead' % nm, not viol, loc=dels[0]['loc'],
+               detail='the node is deleted only while the dead flag is clear, the flag being read in the lock region of the deletion '
+                      '(no double delete of a pid the reaper already removed)', path=path_to(v.g, dels[0]) if viol else None, fn=v.root.q)
+        missing = [1 for (kind, c, fa) in paths if c == 0 and not any(isinstance(f, tuple) and f[0] == 'site-live' for f in fa)]
+        ctx.ob(rid, '%s:not-dead-deletes' % nm, not missing and bool(paths), loc=dels[0]['loc'],
+               detail='every path on which the flag stays clear deletes the node before returning', fn=v.root.q)
+
+
+# --------------------------------------------------------------------------
+# R-C11e
+# --------------------------------------------------------------------------
+
+def records(ctx):
+    prog = ctx.prog
+    rid = 'R-C11e'
+    # reaper: the freshly allocated record
+    for v, reaps in reaper_contexts(prog):
+        if not any(v.is_alloc(e) for e in v.g.events()):
+            raise AnalysisBroken('reaper: status record allocation not found')
+    leak, dbl, loc0, q0 = False, False, None, None
+    for v, reaps in reaper_contexts(prog):
+        a = [e for e in v.g.events() if v.is_alloc(e)][0]
+        loc0, q0 = a['loc'], v.root.q
+        paths = h.reaper_scenario(v, reaps[0], None, lock=h.wait_lock(prog), whole=True)
+        leak = leak or any('LEAK' in fa for (_, fa) in paths)
+        dbl = dbl or any('DOUBLE' in fa for (_, fa) in paths)
+    ctx.ob(rid, 'reaper:record-queued-or-freed', not leak, loc=loc0,
+           detail='the status record is linked into an interest queue or freed on every path to the next allocation / the return of the handler', fn=q0)
+    ctx.ob(rid, 'reaper:record-not-freed-once-queued', not dbl, loc=loc0,
+           detail='a record is consumed once: never freed after it was queued, never queued or freed twice', fn=q0)
+    # records taken off a queue
+    alllocs = set()
+    for v in h.views(prog):
+        g = v.g
+        conts = [e for e in g.events() if e['ev'] == 'store' and 'rhs' in e and h.lval(e['lhs']).get('k') == 'var'
+                 and isinstance(strip(e['rhs']), dict) and strip(e['rhs']).get('k') == 'container_of'
+                 and (strip(e['rhs']).get('record'), strip(e['rhs']).get('member')) == h.EVLINK]
+        cls = {}
+        for d in g.events():
+            if not is_call(d, ('iv_list_del', 'iv_list_del_init')) or not d.get('args'):
+                continue
+            grp = None
+            if v.addr_member(d['args'][0]) == h.EVLINK:
+                grp = v.group_of(v.addr_base(d['args'][0]))
+            else:
+                for c in conts:
+                    if names_of(strip(c['rhs'])['e']) & names_of(d['args'][0]) or canon(v.origin(strip(c['rhs'])['e'])) == canon(v.origin(d['args'][0])):
+                        grp = v.group(h.lval(c['lhs'])['name'])
+            if grp is not None:
+                cls[id(d)] = grp
+        sites = {}
+        if cls:
+            leaked = h.unlink_scenario(v, lambda e: cls.get(id(e)))
+            for d in g.events():
+                if id(d) in cls:
+                    sites.setdefault(d['loc'], []).append(d['loc'] not in leaked)
+        if sites:
+            alllocs |= set(sites)
+            what = h.role_name(prog, v)
+            bad = sorted(l for l, oks in sites.items() if not all(oks))
+            ctx.ob(rid, '%s:unlinked-record-freed' % what, not bad, loc=bad[0] if bad else sorted(sites)[0],
+                   detail='each status record taken off a queue is freed before the next one is taken / the function returns', fn=v.root.q)
+    if len(alllocs) < 2:
+        raise AnalysisBroken('status record unlink sites: %d found (delivery and purge expected)' % len(alllocs))
+
+
+# --------------------------------------------------------------------------
+# R-C11f
+# --------------------------------------------------------------------------
+
+def delivery(ctx):
+    import types
+    from . import c01
+    prog = ctx.prog
+    # functions whose (inlined) body calls a wait handler: by role, not by name
+    names = set()
+    for f in prog.all_funcs():
+        if f.file.endswith('/' + h.UNIT) and any(e['ev'] == 'call' and 'fnexpr' in e and last_member(e['fnexpr']) == (h.REC, 'handler')
+                                                  for e in f.events()):
+            names.add(f.name)
+            for c in roles.callers_closure(prog, f):
+                names.add(c.name)
+    if not names:
+        raise AnalysisBroken('no call through iv_wait_interest.handler found')
+    sub = []
+    proxy = types.SimpleNamespace(prog=prog, ob=lambda rid, inst, ok, **kw: sub.append((rid, inst, ok, kw)),
+                                  exempt=lambda *a, **k: None)
+    c01.holders(proxy)
+    c01.stale(proxy)
+    n = 0
+    for rid, inst, ok, kw in sub:
+        if inst.startswith('holder:marker iv_wait_interest') or (rid == 'R-C01a' and inst.split(':')[0] in names):
+            n += 1
+            ctx.ob('R-C11f', inst, ok, **kw)
+    if n < 2:
+        raise AnalysisBroken('wait delivery marker rules not found')
